@@ -258,3 +258,7 @@ func UnwindIsViolation(id string) {}
 func MaxDecisions(n int) {}
 
 func EventText(kind string) string { return "" }
+
+// FrozenAliases: engine-only (number of pointers / addressable reflect.Values
+// reachable from the arguments that alias a frozen cell).
+func FrozenAliases(vs ...interface{}) int { return 0 }
